@@ -191,6 +191,120 @@ func tokenizerWindowRules(c *Ctx, p *core.Prog) {
 	checkCarryOver(c, p, ts, read)
 	checkDecoderWindow(c, p, ts, read)
 	checkAllBytesAtEOF(c, p, ts, read)
+	checkReadLoopExits(c, p, ts, read)
+}
+
+// checkReadLoopExits: R08.11. The loop that reads the input window by window ends when the reader says so and for no other
+// reason: every way out of the loop around the window read stands behind a test of the error that read returned. A counter of
+// windows without a word, a size limit or a timer cuts the input short without an error, and what stands behind that point -
+// a license behind 64 KiB of blank or decoration-only lines - is never seen.
+func checkReadLoopExits(c *Ctx, p *core.Prog, ts *ssa.Function, read *ssa.Call) {
+	var errVal ssa.Value
+	for _, r := range *read.Referrers() {
+		if ex, ok := r.(*ssa.Extract); ok && ex.Type().String() == "error" {
+			errVal = ex
+		}
+	}
+	if errVal == nil {
+		return
+	}
+	// the outermost loop that contains the read
+	var hdr *ssa.BasicBlock
+	for h := read.Block(); h != nil; h = h.Idom() {
+		for _, pr := range h.Preds {
+			if h.Dominates(pr) && naturalLoop(h)[read.Block()] {
+				hdr = h
+			}
+		}
+	}
+	if hdr == nil {
+		return
+	}
+	loop := naturalLoop(hdr)
+	// direct control dependence: the branch that decides whether the block runs (not the branches further up, behind which
+	// everything in the loop stands)
+	direct := core.NewPostDom(ts).ControlDeps()
+	cd := map[*ssa.BasicBlock]map[*ssa.BasicBlock]bool{}
+	for b, ds := range direct {
+		cd[b] = map[*ssa.BasicBlock]bool{}
+		for _, d := range ds {
+			cd[b][d] = true
+		}
+	}
+	mentionsErr := func(v ssa.Value) bool {
+		seen := map[ssa.Value]bool{}
+		var walk func(v ssa.Value, d int) bool
+		walk = func(v ssa.Value, d int) bool {
+			if v == nil || seen[v] || d > 4 {
+				return false
+			}
+			seen[v] = true
+			if core.Unspill(v) == errVal {
+				return true
+			}
+			switch x := v.(type) {
+			case *ssa.BinOp:
+				return walk(x.X, d+1) || walk(x.Y, d+1)
+			case *ssa.UnOp:
+				return walk(x.X, d+1)
+			case *ssa.Phi:
+				for _, e := range x.Edges {
+					if walk(e, d+1) {
+						return true
+					}
+				}
+			case *ssa.Call:
+				for _, a := range x.Call.Args {
+					if walk(a, d+1) {
+						return true
+					}
+				}
+			}
+			return false
+		}
+		return walk(v, 0)
+	}
+	nExit, bad := 0, ""
+	for b := range loop {
+		for _, sc := range b.Succs {
+			if loop[sc] {
+				continue
+			}
+			nExit++
+			okExit := false
+			if ifi, isIf := b.Instrs[len(b.Instrs)-1].(*ssa.If); isIf && mentionsErr(ifi.Cond) {
+				okExit = true
+			}
+			for d := range cd[b] {
+				if !loop[d] {
+					continue
+				}
+				if ifi, isIf := d.Instrs[len(d.Instrs)-1].(*ssa.If); isIf && mentionsErr(ifi.Cond) {
+					okExit = true
+				}
+			}
+			if !okExit && bad == "" {
+				bad = p.Pos(b.Instrs[len(b.Instrs)-1].Pos())
+				if bad == "-" && len(b.Instrs) > 1 {
+					bad = p.Pos(b.Instrs[0].Pos())
+				}
+			}
+		}
+		if r, isRet := b.Instrs[len(b.Instrs)-1].(*ssa.Return); isRet {
+			nExit++
+			okExit := false
+			for d := range cd[b] {
+				if ifi, isIf := d.Instrs[len(d.Instrs)-1].(*ssa.If); isIf && loop[d] && mentionsErr(ifi.Cond) {
+					okExit = true
+				}
+			}
+			if !okExit && bad == "" {
+				bad = p.Pos(r.Pos())
+			}
+		}
+	}
+	c.R.Check(bad == "", "R08.11", "tokenizeStream: the read loop is left only on what the reader reported", p.Pos(read.Pos()), fmt.Sprintf("%d ways out of the loop around the window read, each behind a test of the read's error", nExit),
+		"the loop over the read windows can be left at "+bad+" without a test of the reader's error: the input is cut short silently - what stands behind that point (a second license behind a long stretch without words) is never tokenized, and no error is returned")
 }
 
 // licenseLiterals returns the non-Copyright Match literals of v2.
@@ -234,6 +348,7 @@ func runC01(c *Ctx) {
 	checkNoCandidateCap(c, p)
 	checkFirstPassAdmission(c, p)
 	checkEveryRangeScored(c, p)
+	checkIndexCompleteAndCountersWide(c, p)
 	// shared with C06: a copy is tokenized like its source only if the text of a token is computed for that token, at its own
 	// position in its line - not taken from a cache filled by an earlier occurrence of the word elsewhere (R06.5)
 	checkTokenTextProvenance(c, p)
@@ -250,6 +365,9 @@ func runC01(c *Ctx) {
 	// shared with C10: a planted copy is reported only if Match returns at all - a table indexed by line numbers is a map, or the
 	// index is tested against its length (R10.12)
 	checkLineKeyedTables(c, p, v2LibFuncs(p))
+	// shared with C11: the tokenizer's local dictionary is never started afresh in the middle of a text (R11.15): the word ids
+	// of the line being assembled would name other words, and a copy behind a large vocabulary is garbled
+	checkNumberWordsAndLocalDictionary(c, p)
 	ts := p.Func(v2pkg, "tokenizeStream")
 	if !c.R.Anchor(ts != nil, "v2.tokenizeStream") {
 		return
@@ -673,6 +791,11 @@ func runC02(c *Ctx) {
 	checkLineStringifier(c, p)
 	// shared with C04: ... the id of a word is the dictionary's id of that very word (R04.12)
 	checkDictLookupsOnCleanWord(c, p)
+	// shared with C08: the last character of a truncated input is decoded from its own bytes only (R08.4/R08.5/R08.8); shared
+	// with C06: a word of the spelling table is replaced by ONE word (R06.1) - a replacement with a blank in it counts as two
+	// words where the scored span is cut to size
+	tokenizerWindowRules(c, p)
+	checkWordTable(c, p)
 	// shared with C06: ... and only if the text of a token is computed for that token at its own position - a list marker
 	// dropped from the middle of a line because the same word was one at a line start shortens the scored span (R06.5)
 	checkTokenTextProvenance(c, p)
@@ -2282,6 +2405,9 @@ func runC11(c *Ctx) {
 	checkNoticeDecisionOnCleanedLine(c, p)
 	checkNumberWordsAndLocalDictionary(c, p)
 	checkTokenizerCallArgsAgree(c, p)
+	// shared with C10: Match of the original and of the normalised text both return: a table indexed by line numbers is a map
+	// or tested against its length (R10.12) - the notices Normalize removes leave no token
+	checkLineKeyedTables(c, p, v2LibFuncs(p))
 	checkCaseFoldedLookups(c, p, ts)
 	checkSpellingLookupOnCleanText(c, p)
 	// R11.6 the normalised text is returned as it was written: line k of the result is line k of the input
@@ -3485,10 +3611,54 @@ func checkNoTrailingDot(c *Ctx, p *core.Prog, ct *ssa.Function) {
 		}
 		n++
 		v := ret.Results[0]
-		for _, sfx := range []struct{ s, name, why string }{
+		sfxs := []struct{ s, name, why string }{
 			{".", "a dot", "a number can keep a trailing dot (e.g. \"2.0.\" from \"2.0..\"): Normalize writes it out and re-tokenising the normalised text strips one more dot, so Match(Normalize(x)) sees a different token than Match(x)"},
 			{"-", "a hyphen", "a number can keep a trailing hyphen (\"1)-a.\" is cleaned to \"1-\"): when it is the last word of its line, Normalize writes \"1-\" and a line break, which is tokenised again as a word hyphenated across the line break - the next word is swallowed"},
-		} {
+		}
+		// ... nor in any other character that the number path keeps and that the list-marker test takes for the end of a marker
+		// (the characters header() compares the last byte of a word with): a cleaned number such as "1:" is a list marker
+		// when the normalised text is tokenized again and it stands first in its line
+		if hd := p.Func(v2pkg, "header"); hd != nil {
+			markerEnds := map[int64]bool{}
+			for _, hb := range hd.Blocks {
+				for _, in := range hb.Instrs {
+					if bo, isBo := in.(*ssa.BinOp); isBo && bo.Op == token.EQL {
+						if bt, isB := bo.X.Type().Underlying().(*types.Basic); isB && bt.Kind() == types.Uint8 {
+							if k, isK := core.ConstInt(bo.Y); isK {
+								markerEnds[k] = true
+							}
+						}
+					}
+				}
+			}
+			for _, cb := range ct.Blocks {
+				for _, in := range cb.Instrs {
+					bo, isBo := in.(*ssa.BinOp)
+					if !isBo || bo.Op != token.EQL {
+						continue
+					}
+					k, isK := core.ConstInt(bo.Y)
+					if !isK || !markerEnds[k] || k == '.' || k == '-' {
+						continue
+					}
+					if bt, isB := bo.X.Type().Underlying().(*types.Basic); !isB || bt.Kind() != types.Int32 {
+						continue
+					}
+					// in the number path?
+					inDigit := false
+					for _, f := range core.FactsAt(cb) {
+						if call, ok := f.Cond.(*ssa.Call); ok && f.Truth && core.StaticCalleeName(&call.Call) == "unicode.IsDigit" {
+							inDigit = true
+						}
+					}
+					if inDigit {
+						ch := string(rune(k))
+						sfxs = append(sfxs, struct{ s, name, why string }{ch, "'" + ch + "'", "the number path keeps '" + ch + "', which header() takes for the end of a list marker: a number such as \"1" + ch + "\" is written by Normalize as it is, and where it comes to stand first in its line in the normalised text (behind the remainder of a hyphenated word, behind a word that cleans to nothing) it is dropped there - Match of the original keeps it"})
+					}
+				}
+			}
+		}
+		for _, sfx := range sfxs {
 			ok = noTrailingValue(v, sfx.s, 0)
 			for _, f := range core.FactsAt(b) {
 				if call, isCall := f.Cond.(*ssa.Call); isCall && !f.Truth && core.StaticCalleeName(&call.Call) == "strings.HasSuffix" && call.Call.Args[0] == v {
@@ -5822,6 +5992,82 @@ func checkEveryRangeScored(c *Ctx, p *core.Prog) {
 	}
 	c.R.Check(bad == "", "R01.11", "match: every proposed range is scored", v2pkg, fmt.Sprintf("%d calls of score, each reached from its loops without a further test", n),
 		"whether a proposed range is scored depends on "+bad+": ranges that the score would accept are dropped by a cheaper pre-test - one that counts words unknown to the dictionary depends on the whole corpus, so an unrelated document changes the Results of the same input")
+}
+
+// checkIndexCompleteAndCountersWide: R01.12, R01.13.
+func checkIndexCompleteAndCountersWide(c *Ctx, p *core.Prog) {
+	// R01.12: the q-gram index of a text records every occurrence of a q-gram: where a list kept under a map key is extended
+	// (m[k] = append(m[k], x)), the extension does not stand behind a test whether the key is present already. With only the
+	// first occurrence recorded a repeated phrase cuts the run of a verbatim copy in two - at threshold 1.0 nothing fuses the
+	// pieces and the copy is not reported.
+	{
+		n, bad := 0, ""
+		for _, fn := range v2LibFuncs(p) {
+			if isTraceFn(fn) {
+				continue
+			}
+			for _, b := range fn.Blocks {
+				for _, in := range b.Instrs {
+					mu, ok := in.(*ssa.MapUpdate)
+					if !ok {
+						continue
+					}
+					ap, isCall := mu.Value.(*ssa.Call)
+					if !isCall {
+						continue
+					}
+					if bi, isB := ap.Call.Value.(*ssa.Builtin); !isB || bi.Name() != "append" {
+						continue
+					}
+					lk, isLk := core.Unspill(ap.Call.Args[0]).(*ssa.Lookup)
+					if !isLk || core.Unspill(lk.X) != core.Unspill(mu.Map) {
+						continue
+					}
+					n++
+					for _, f := range core.FactsAt(b) {
+						if ex, isEx := core.Unspill(f.Cond).(*ssa.Extract); isEx && !f.Truth {
+							if l2, isL2 := ex.Tuple.(*ssa.Lookup); isL2 && core.Unspill(l2.X) == core.Unspill(mu.Map) && bad == "" {
+								bad = core.ShortFn(fn) + ": " + p.Pos(mu.Pos())
+							}
+						}
+					}
+				}
+			}
+		}
+		c.R.Check(bad == "", "R01.12", "v2: a list kept under a map key is extended whether or not the key is present", v2pkg, fmt.Sprintf("%d extensions of a list under a map key", n),
+			"the list under a key is only started, never extended ("+bad+" stands behind a test that the key is absent): later occurrences are not recorded - a document that repeats a phrase of q words is matched in pieces, and at threshold 1.0 its verbatim copy is not reported")
+	}
+	// R01.13: nothing is counted in an integer narrower than int: no addition, subtraction or multiplication of the library has
+	// an 8- or 16-bit integer type. A count of the input's words that wraps at 65536 makes a large input look unlike every
+	// document, and all its copies go unreported.
+	{
+		n, bad := 0, ""
+		for _, fn := range v2LibFuncs(p) {
+			for _, b := range fn.Blocks {
+				for _, in := range b.Instrs {
+					bo, ok := in.(*ssa.BinOp)
+					if !ok || (bo.Op != token.ADD && bo.Op != token.SUB && bo.Op != token.MUL) {
+						continue
+					}
+					bt, isB := bo.Type().Underlying().(*types.Basic)
+					if !isB || bt.Info()&types.IsInteger == 0 {
+						continue
+					}
+					n++
+					switch bt.Kind() {
+					case types.Int8, types.Int16, types.Uint16:
+						if bad == "" {
+							bad = core.ShortFn(fn) + ": " + p.Pos(bo.Pos()) + " (" + bt.Name() + ")"
+						}
+					case types.Uint8:
+						// byte arithmetic on characters is common and not a count
+					}
+				}
+			}
+		}
+		c.R.Check(bad == "", "R01.13", "v2: no arithmetic in an integer type narrower than 32 bits", v2pkg, fmt.Sprintf("%d integer additions, subtractions and multiplications", n),
+			"a value is computed in a 16-bit (or 8-bit) integer type at "+bad+": a count or a line number wraps round for large inputs - a word that occurs 65536 times is counted as absent, the input fails the similarity pre-filter of every document and no copy in it is reported")
+	}
 }
 
 // checkIndexKeysAgree: R05.12. An index that match fills in one loop and consults in another is consulted under the keys it is
